@@ -72,7 +72,7 @@ func main() {
 	}
 
 	short := func(p string) string { return strings.TrimPrefix(strings.TrimPrefix(p, modPath), "/") }
-	var mutated, methodCalled, goFuncs, chanMakes, polyAccess, retained, paramWrites []string
+	var mutated, methodCalled, goFuncs, chanMakes, polyAccess, retained, paramWrites, paramAppends []string
 	locksFirst, defersUnlock := false, false
 	goCloseLast := true
 
@@ -187,6 +187,12 @@ func main() {
 							}
 						}
 					case *ast.CallExpr:
+						// append(param, ...) may write into the caller's backing array beyond len
+						if id, ok := x.Fun.(*ast.Ident); ok && id.Name == "append" && len(x.Args) >= 1 {
+							if aid, ok := x.Args[0].(*ast.Ident); ok && sliceParams[p.info.Uses[aid]] {
+								paramAppends = append(paramAppends, qual)
+							}
+						}
 						if sel, ok := x.Fun.(*ast.SelectorExpr); ok && !inInit {
 							if s := p.info.Selections[sel]; s != nil && s.Kind() == types.MethodVal {
 								if id := rootIdent(sel.X); id != nil {
@@ -270,6 +276,7 @@ func main() {
 	fmt.Fprintf(&sb, "(* every go statement runs a function literal whose last statement is close(ch) *)\nDefinition sync_goroutines_close_last : bool := %v.\n", goCloseLast)
 	fmt.Fprintf(&sb, "(* functions that store a slice-typed parameter itself (not a copy) into a struct field *)\nDefinition sync_slice_params_retained : list string := %s.\n", coqStrs(uniq(retained)))
 	fmt.Fprintf(&sb, "(* exported functions that assign to an element of a slice-typed parameter *)\nDefinition sync_slice_params_written : list string := %s.\n", coqStrs(uniq(paramWrites)))
+	fmt.Fprintf(&sb, "(* functions that call append on a slice-typed parameter (may write beyond its length into the caller's array) *)\nDefinition sync_slice_params_appended : list string := %s.\n", coqStrs(uniq(paramAppends)))
 	txt := sb.String()
 	old, err := os.ReadFile(os.Args[1])
 	if err == nil && string(old) == txt {
